@@ -72,7 +72,79 @@ def ack_ok(ack: bytes) -> bool:
         return False
 
 
+def run_echo(case: Dict[str, Any]) -> Dict[str, Any]:
+    """Full-duplex tunnel against an echoing origin that, like a single-threaded echo server, stops reading while it cannot
+    write.  The client pushes `size` bytes as fast as the proxy takes them and reads concurrently: both directions are busy
+    at once and both relay queues stay non-empty for the whole transfer.  Every byte comes back, in order."""
+    rng = random.Random('c01e:%s:%s' % (case['seed'], case['i']))
+    mode = case.get('mode', 'local')
+    flags = make_flags(_FLAGSETS['default'], cache_key='c01:default')
+    shim.S.reset()
+    rig = StepRig(flags, mode)
+    viol: List[Dict[str, Any]] = []
+    obs: Dict[str, int] = {}
+    size = case['size']
+    try:
+        origin = rig.add_origin('127.0.%d.%d' % (rng.randint(0, 250), rng.randint(2, 250)))
+        client = rig.add_client(case.get('transport', 'unix'))
+        hp = origin.hostport
+        client.send(b'CONNECT %s HTTP/1.1\r\nHost: %s\r\n\r\n' % (hp, hp))
+        box: Dict[str, Any] = {}
+
+        def accepted() -> bool:
+            if 'oc' not in box:
+                p = origin.accept()
+                if p is not None:
+                    box['oc'] = p
+            return 'oc' in box and b'\r\n\r\n' in client.rx
+        if not rig.until(accepted, [client]):
+            return {'viol': [], 'inconclusive': 'tunnel-not-established', 'obs': {}, 'sig': 'echo', 'nontrivial': False}
+        oc = box['oc']
+        head = len(client.rx)
+        data = G.coded(b'E', size)
+        st = {'sent': 0, 'echo_off': 0}
+
+        def pump_all() -> bool:
+            # client: push and read
+            if st['sent'] < size:
+                n = client.send(data[st['sent']:st['sent'] + 262144])
+                if n > 0:
+                    st['sent'] += n
+            client.pump()
+            # origin: echo; reads only while its unsent backlog is small (it is busy writing otherwise)
+            backlog = len(oc.rx) - st['echo_off']
+            if backlog > 0:
+                n = oc.send(bytes(oc.rx[st['echo_off']:st['echo_off'] + 262144]))
+                if n > 0:
+                    st['echo_off'] += n
+                    if st['echo_off'] > (4 << 20):
+                        del oc.rx[:st['echo_off']]      # keep the harness's own memory flat
+                        st['echo_off'] = 0
+            if len(oc.rx) - st['echo_off'] < case.get('backlog', 65536):
+                oc.pump(262144)
+            return len(client.rx) - head >= size
+        ok = rig.until(pump_all, [], idle_timeout=1.0, max_stall=8.0, max_wall=120.0)
+        client.pump()
+        got = bytes(client.rx[head:])
+        d = monitors.diff_streams(data, got)
+        if d is not None:
+            viol.append({'key': 'echo|raw|to-client|%s' % d['kind'], 'detail': dict(d, pushed=st['sent'], size=size)})
+        else:
+            obs['echo_bytes_round_trip'] = size
+            obs['echo_runs'] = 1
+    except LoopDied as e:
+        viol.append({'key': 'echo|raw|loop-died:%s' % e.where(), 'detail': {'tb': e.tb[-1200:]}})
+    finally:
+        rig.close()
+    obs['role:echo'] = 1
+    obs['mode:' + mode] = 1
+    return {'viol': viol, 'nontrivial': True, 'sig': 'echo/%s/%d/%s' % (mode, size, case.get('backlog')), 'obs': obs,
+            'sample': {'case': case}}
+
+
 def run_case(case: Dict[str, Any]) -> Dict[str, Any]:
+    if case['role'] == 'echo':
+        return run_echo(case)
     rng = random.Random('c01:%s:%s' % (case['seed'], case['i']))
     role, fr, mode = case['role'], case['fr'], case.get('mode', 'local')
     flags = make_flags(_FLAGSETS[case['flags']], cache_key='c01:' + case['flags'])
@@ -135,7 +207,7 @@ def run_case(case: Dict[str, Any]) -> Dict[str, Any]:
             o_pieces = []
             per_req_pieces = []
             for raw in streams:
-                if cuts_mode == 'bytes':
+                if cuts_mode == 'bytes' and len(raw) <= 600:     # (a long chunk extension can make a tiny body a long message)
                     pcs = [raw[i:i + 1] for i in range(len(raw))]
                 else:
                     pcs = G.cut_at(raw, G.random_cuts(rng, len(raw), case['ncuts']))
@@ -253,6 +325,31 @@ def run_case(case: Dict[str, Any]) -> Dict[str, Any]:
                 viol.append({'key': '%s|%s|to-origin|%s' % (role, fr, d2['kind']), 'detail': d2})
         if closed_by_origin and not client.ended:
             viol.append({'key': 'http|close|client-not-closed-after-origin-close', 'detail': {}})
+        # ---- how the conversation ends: nothing but the relayed bytes ever reaches either peer, whoever ends it and however ----
+        ending = case.get('ending', 'none')
+        if ending != 'none' and not viol and not closed_by_origin and not client.ended:
+            n_c, n_o = len(client.rx), len(oc.rx)
+            if ending == 'origin-rst':
+                oc.reset_close()
+            elif ending == 'origin-fin':
+                oc.close()
+            elif ending == 'client-rst':
+                client.reset_close()
+            elif ending == 'client-fin':
+                client.shutdown_wr()
+            watch = client if ending.startswith('origin') else oc
+            rig.until(lambda: watch.ended, [watch], idle_timeout=0.6)
+            rig.settle([p for p in (client, oc) if not p.closed], quiet=6)
+            extra_c = bytes(client.rx[n_c:]) if not client.closed else b''
+            extra_o = bytes(oc.rx[n_o:]) if not oc.closed else b''
+            if extra_c:
+                viol.append({'key': '%s|%s|bytes-injected-towards-client-at-%s' % (role, fr, ending), 'detail': {'extra': extra_c[:200]}})
+            if extra_o:
+                viol.append({'key': '%s|%s|bytes-injected-towards-origin-at-%s' % (role, fr, ending), 'detail': {'extra': extra_o[:200]}})
+            if not watch.ended:
+                viol.append({'key': '%s|%s|other-side-not-closed-after-%s' % (role, fr, ending), 'detail': {}})
+            elif not extra_c and not extra_o:
+                obs['ending:' + ending] = 1
         sv = monitors.structural_violations(rig)
         if sv and viol:
             viol[-1]['detail']['structural'] = sv
@@ -312,7 +409,11 @@ def cases(tier: str, seed: int):
                'profile': rng.choice(['eager', 'slow', 'slow', 'stall']),
                'transport': rng.choice(['unix', 'unix', 'tcp']), 'rcvbuf': rng.choice([None, None, 4096]),
                'sndbuf': rng.choice([None, None, 4096]),
-               'mode': rng.choice(modes)}
+               'mode': rng.choice(modes), 'ending': rng.choice(['none', 'origin-rst', 'origin-fin', 'client-rst', 'client-fin'])}
+    for k in range(3 if tier == 'quick' else 40):
+        i += 1
+        yield {'seed': seed, 'i': i, 'role': 'echo', 'fr': 'raw', 'flags': 'default', 'size': rng.choice([12, 24]) << 20, 'mode': rng.choice(modes),
+               'backlog': rng.choice([65536, 1 << 20]), 'transport': rng.choice(['unix', 'tcp'])}
     if tier == 'thorough':
         for k in range(30):
             i += 1
@@ -325,7 +426,8 @@ def cases(tier: str, seed: int):
 
 def floors(tier: str) -> Dict[str, int]:
     fl = {'nontrivial_cases': 100, 'distinct:schedules': 300, 'distinct:handler_states': 3,
-          'shim:send:short-injected': 100, 'shim:send:eagain-injected': 50, 'shim:send:short-real': 20, 'mode:remote': 50, 'role:tunnel': 50}
+          'shim:send:short-injected': 100, 'shim:send:eagain-injected': 50, 'shim:send:short-real': 20, 'mode:remote': 50, 'role:tunnel': 50,
+          'echo_runs': 2, 'ending:origin-rst': 40, 'ending:origin-fin': 40, 'ending:client-rst': 40, 'ending:client-fin': 40}
     for f in FRAMINGS:
         fl['fr:' + f] = 10
     return fl
